@@ -64,20 +64,6 @@ func genC06(t *rapid.T) c06Case {
 	}
 	if rapid.IntRange(0, 2).Draw(t, "points") == 0 {
 		c.Cfg.Points = []string{"conn.NewStream.afterNewClientStream", "conn.Invoke.afterNewClientStream"}
-		if c.Cfg.Soft && pbt.Excluded("F6") {
-			// F6: a soft cancel while parked between stream creation and the invoke write wedges the
-			// server's reader; excluded by not holding that point when the programs contain a cancel.
-			for _, r := range c.RPCs {
-				for _, s := range r.Client.Steps {
-					if s.Op == "cancel" {
-						c.Cfg.Points = nil
-					}
-				}
-				if len(r.CSubs) > 0 {
-					c.Cfg.Points = nil
-				}
-			}
-		}
 	}
 	c.Choices = genChoices(t, 300)
 	return c
